@@ -5,6 +5,7 @@ mod monitor;
 mod net;
 mod plan;
 mod rig;
+mod rig_pc;
 mod scenarios;
 mod shrink;
 mod sim;
@@ -45,6 +46,7 @@ fn check_cfg(prop: &str, tier: Tier) -> Option<driver::CheckCfg> {
         "C19" => ("exploration", "one evaluation = one simulated run of a plain-RTP RtpTransport on host B fed through its real socket -> pump -> IceConn::receive path, under a plan expanded from (VERIF_SEED, run index): extension-id knobs, listener channel capacity, and an op list of listener registrations (SSRC / RID / MID / payload type / payload-type list / provisional; overlapping), listener close (receiver dropped), listener stall (bounded channel not drained -> full), RTP packets with arbitrary SSRC / PT / MID / RID / extension shape, and rewrite-bridge install / clear ops (rule tables with exact-PT and catch-all rules, fixed or offset SSRC, PT rewrite, MID stamping, extension stripping, optional video target) towards target transports on host C whose wire is recorded; 1-4 interleaved source streams with sequence / timestamp jumps, 16/32-bit wraps, duplicates and reordering, either as plan ops (knob wire=0, every packet fully processed before the next op, demux oracles exact) or through addressed network faults drop/dup/delay/hold on the A->B RTP datagrams (knob wire=1, bridge oracles only). Every delivery is compared with a branching reference model of the documented priority RID -> MID -> SSRC (incl. learnt bindings) -> unique payload type -> single provisional; every bridged output is attributed to its source packet by a payload tag. distinct = semantic event trace (op kinds with their listener / label arguments, per packet the deciding level, number of competing registrations and the receiver, per bridged output the rule and continuity class; no timestamps, lengths or raw SSRC values) hashes to a value not seen before in the batch; non-trivial = at least one packet for which two or more registered listeners competed (matched the packet at any priority level), or at least one bridged source stream that contained a timestamp discontinuity, a 16/32-bit wrap, an irregular source sequence step (duplicate / reorder / jump), or that was interleaved with another source stream in the same bridge installation, or (wire=1) a network fault fired on a bridged stream."),
         "C14" => ("exploration", "one evaluation = one simulated run of scenario srtp_gate: two SRTP-mandatory RtpTransport legs A and B over IceConn on the simulated network, an SRTP-mandatory bridge target C (keys only by op), a plain-RTP bridge target P and an attacker host M, in WebRTC-like mode (rtcp-mux) or SDES-like mode (allow-ssrc-change transport, optionally a separate RTCP port), with one of the three SRTP profiles, executing a program of plan.ops over {keys(A|B|C, key set 0|1), send_rtp (3 streams incl. the RTX-like one; the NACK/RTX responder calls the same method), send (raw RTP bytes / RTCP bytes), send_rtcp (PLI, BYE, RR, compound), send_rtcp_sync(BYE), close (clear_listeners + synchronous BYE as PeerConnection close does), listen, inject cleartext RTP/RTCP, inject RTP/RTCP protected by the reference with the right key (key set 0|1), inject RTP/RTCP protected with a key nobody installed or right-key-then-bit-flipped, bridge A->C / A->P, unbridge}; injected packets come from M or with the peer's spoofed source address. Run indices below the exhaustive count enumerate EVERY program of length <= 3 (quick) / <= 4 (thorough) over a 16-symbol alphabet in each of the two modes, executed sequentially; the remaining indices are swarm-generated programs of 1..14 ops executed either sequentially or partitioned over 2-4 racing tasks whose interleaving (with each other and with the receive pumps) is decided by the seeded scheduler (plan.sched), 25 % of them with flip/truncate/dup/delay faults on the peers' genuine datagrams. Oracles: C14.tx at the wire monitor (every datagram leaving A, B or C must authenticate and decrypt under an independent reference SRTP context (crate webrtc-srtp, fresh context per datagram) for a key set installed on that transport and equal a packet the application asked to send or, for C, a bridged packet; any datagram before keys exist is a violation); C14.rx at three listener channels (ssrc / payload-type / provisional route), the RTCP listener, RtpObserver ingress and bridge-egress callbacks and the wire of both bridge targets (every surfaced packet must be one that was put on the wire protected under a key set the receiving transport has installed, with unchanged header). distinct = semantic event trace (rig configuration, op kinds/targets/results, wire classes, surfaced-packet verdicts; no timestamps, lengths or packet ids) hashes to a value not seen before in the batch; non-trivial = at least one send-type op (send_rtp, send, send_rtcp, send_rtcp_sync, close) was executed on a transport that had no keys yet, or at least one cleartext / wrong-key / corrupted packet was injected towards a transport while an observer, listener or RTCP listener was registered on it."),
         "C18" => ("exploration", "one evaluation = one simulated run of a single IceConn (latching enabled, probation 0..8, expected SSRC known/unknown, rtcp-mux on/off, signalled remote = a silent address / one of the sources / not set) under a plan expanded from (VERIF_SEED, run index); after every delivered packet remote_addr, remote_rtcp_addr and rtp_latched are compared with a reference model of the documented rules. Even run indices below 2x the enumerated space are exhaustive small-scope blocks (knob enum=1: 512 consecutive sequences of ALL length-5 (quick) / length-6 (thorough) words over 21 symbols = {A,C,M} x {matching RTP x marker 0/1 x seq +1/jump, other-SSRC RTP, RTCP} + {reset_latch, signalling retarget, selected-pair update}, for probation in {0,1,2,3,6,8} x signalled remote in {silent address, source A}; knob enum=2: all length-8 / length-10 marker-less matching words over {A,C,M} x {+1, jump} for probation {6,8}; every word runs on a fresh IceConn and is fed straight to IceConn::receive; prefixes cover all shorter words; other_stats.seqs counts the words). The other runs (enum=0) are random sequences of up to ~60 packets from up to 5 source addresses through the simulated socket and pump task, with generator-drawn reordering/duplication between sources, sequence jumps and wraps, wrong-SSRC streams, RTCP from RTP and RTP+1 ports, runts, non-RTP junk and interleaved control ops. distinct = semantic trace (per packet: source, class, SSRC match, marker, resulting addresses and latch flag; no sequence numbers, times or lengths) not seen before in the batch; non-trivial = at commit time at least two competing sources had sent matching RTP, or a packet from an address other than the committed one was delivered after commit."),
+        "C10" => ("exploration", "one evaluation = two full PeerConnections (ICE gathering, checks, nomination, DTLS-SRTP or SDES or plain RTP, SCTP/DCEP, media tracks) on a fault-free simulated network with a configuration point of the lattice mode{WebRtc,Srtp,Rtp} x mix{dc,audio,audio+video,dc+audio,dc+audio+video} x bundle{3} x rtcp-mux{2} x ICE-lite{none,A,B} x UDP-mux{off,answerer} x latching{off,on,on+probation} x compat{Standard,LegacySip} x offerer{A,B}, filtered by the written compatibility predicate (rig_pc.rs PcKnobs::compatible); thorough enumerates every compatible point once, quick samples them; latencies and task schedule are seeded per run. distinct = semantic trace hash; non-trivial = the exchange reached the data/media phase."),
         _ => return None,
     };
     let mut base_assumptions = base_assumptions;
